@@ -375,6 +375,18 @@ def hRelax {W : Type} (N : Num W) (fOf : W → Nat → W) (cur : Nat) (gcur : W)
                 rerelax := st.rerelax + (if (look st.g nb.1).isSome then 1 else 0) }
     else st
 
+/-- `iterations += 1; closed.add(current)` (the popped entry already removed from the heap) -/
+def hClose {W : Type} (st : HSt W) (cur : Nat) (rest : List (W × W × Nat × Nat)) : HSt W :=
+  { st with heap := rest, iters := st.iters + 1, closed := cur :: st.closed }
+
+/-- `g[current]` (the popped `g` if the table has no entry: never the case) -/
+def gOf {W : Type} (st : HSt W) (cur : Nat) (gc : W) : W :=
+  match look st.g cur with | some x => x | none => gc
+
+/-- `max_cost is not None and g[current] > max_cost` -/
+def pruned {W : Type} (N : Num W) (maxCost : Option W) (gcur : W) : Bool :=
+  match maxCost with | some m => N.lt m gcur | none => false
+
 /-- `while heap and iterations < max_iter` of `dijkstra` / `astar` (the two differ in the heap key
 only: for Dijkstra the popped `cost` equals `g[current]`).  The `max_cost` test comes before the
 goal test (the repaired order, see proposed_fixes/C11_max_cost.md). -/
@@ -385,15 +397,13 @@ def hLoop {W : Type} (N : Num W) (adj : Nat → List (Nat × W)) (fOf : W → Na
     if st.iters < maxIter then
       match popMin N st.heap with
       | none => .infeasible st
-      | some ((_, gc, _, cur), rest) =>
-        if st.closed.contains cur then hLoop N adj fOf isGoal maxIter maxCost fuel { st with heap := rest }
-        else
-          let st := { st with heap := rest, iters := st.iters + 1, closed := cur :: st.closed }
-          let gcur := match look st.g cur with | some x => x | none => gc
-          if (match maxCost with | some m => N.lt m gcur | none => false) then
-            hLoop N adj fOf isGoal maxIter maxCost fuel st
-          else if isGoal cur then .found cur st
-          else hLoop N adj fOf isGoal maxIter maxCost fuel ((adj cur).foldl (hRelax N fOf cur gcur) st)
+      | some (e, rest) =>
+        if st.closed.contains e.2.2.2 then hLoop N adj fOf isGoal maxIter maxCost fuel { st with heap := rest }
+        else if pruned N maxCost (gOf (hClose st e.2.2.2 rest) e.2.2.2 e.2.1) then
+          hLoop N adj fOf isGoal maxIter maxCost fuel (hClose st e.2.2.2 rest)
+        else if isGoal e.2.2.2 then .found e.2.2.2 (hClose st e.2.2.2 rest)
+        else hLoop N adj fOf isGoal maxIter maxCost fuel
+          ((adj e.2.2.2).foldl (hRelax N fOf e.2.2.2 (gOf (hClose st e.2.2.2 rest) e.2.2.2 e.2.1)) (hClose st e.2.2.2 rest))
     else .maxIter st
 
 structure HRes (W : Type) where
@@ -405,14 +415,19 @@ structure HRes (W : Type) where
   rerelax : Nat
   fuelOut : Bool
 
-def hSearch {W : Type} (N : Num W) (n nEdges : Nat) (adj : Nat → List (Nat × W)) (fOf : W → Nat → W)
-    (s : Nat) (isGoal : Nat → Bool) (maxIter : Nat) (maxCost : Option W) (okStatus : Status) : HRes W :=
-  let st0 : HSt W := ⟨(Tab.empty n).set s (some N.zero), Tab.empty n, [], [(fOf N.zero s, N.zero, 0, s)], 1, 0, 0⟩
-  match hLoop N adj fOf isGoal maxIter maxCost (nEdges + 2) st0 with
+def hInit {W : Type} (N : Num W) (n : Nat) (fOf : W → Nat → W) (s : Nat) : HSt W :=
+  ⟨(Tab.empty n).set s (some N.zero), Tab.empty n, [], [(fOf N.zero s, N.zero, 0, s)], 1, 0, 0⟩
+
+/-- what `dijkstra` / `astar` return -/
+def hResult {W : Type} (n : Nat) (okStatus : Status) : HOut W → HRes W
   | .found cur st => ⟨okStatus, recon st.parent (n + 1) cur [], look st.g cur, st.g, st.closed, st.rerelax, false⟩
   | .infeasible st => ⟨.INFEASIBLE, none, none, st.g, st.closed, st.rerelax, false⟩
   | .maxIter st => ⟨.MAX_ITER, none, none, st.g, st.closed, st.rerelax, false⟩
   | .fuel => ⟨.MAX_ITER, none, none, [], [], 0, true⟩
+
+def hSearch {W : Type} (N : Num W) (n nEdges : Nat) (adj : Nat → List (Nat × W)) (fOf : W → Nat → W)
+    (s : Nat) (isGoal : Nat → Bool) (maxIter : Nat) (maxCost : Option W) (okStatus : Status) : HRes W :=
+  hResult n okStatus (hLoop N adj fOf isGoal maxIter maxCost (nEdges + 2) (hInit N n fOf s))
 
 def intNum : Num Int := ⟨(· + ·), fun a b => decide (a < b), 0⟩
 
